@@ -545,6 +545,10 @@ fn catalogue(field: usize, rng: &mut Rng, shredder: bool) -> Vec<String> {
         _ => vec!["", "x", "-1", "0", "65536", "99999999999", "00", "+0", "65535", "+7", "1.0", "１", "70000"],
     };
     let mut out: Vec<String> = v.iter().map(|s| s.to_string()).collect();
+    // fields that are a single (or leading / trailing) character of two, three and four UTF-8 bytes
+    for w in ["é", "ß", "Ω", "\u{a0}", "٣", "\u{2003}", "１", "\u{1F600}", "éé", "-é", "é-", "wé", "é1"] {
+        out.push(w.to_string());
+    }
     if field == 3 {
         for _ in 0..3 {
             out.push(format!("{}{}", FCH[rng.below(8) as usize], 1 + rng.below(8)));
